@@ -281,8 +281,29 @@ func TestC18Binary(t *testing.T) {
 		}
 		go get("/short", shortRes)
 		time.Sleep(30 * time.Millisecond) // requests are in flight
+		// signals around the shutdown: SIGHUP never ends the process, and further signals that
+		// arrive while the drain is in progress do not cut it short
+		if rapid.IntRange(0, 3).Draw(t, "sighup-first") == 0 {
+			p.cmd.Process.Signal(syscall.SIGHUP)
+			time.Sleep(40 * time.Millisecond)
+			select {
+			case <-p.exited:
+				t.Fatalf("the process exited on SIGHUP\n%s", tail(p.out.String()))
+			default:
+			}
+			hx.Class("binary:sighup-ignored")
+		}
 		sig := time.Now()
 		p.cmd.Process.Signal(syscall.SIGTERM)
+		if rapid.Bool().Draw(t, "second-signal") {
+			second := rapid.SampledFrom([]syscall.Signal{syscall.SIGTERM, syscall.SIGINT, syscall.SIGHUP}).Draw(t, "second")
+			after := time.Duration(rapid.IntRange(1, 40).Draw(t, "second-after-pct")) * short / 100
+			go func() {
+				time.Sleep(after)
+				p.cmd.Process.Signal(second)
+			}()
+			hx.Class("binary:second-signal-during-the-drain")
+		}
 		hx.Eval()
 		lateRes := make(chan res, 1)
 		if late {
